@@ -422,7 +422,7 @@ func (r *Run) finish() int {
 	if r.assumptions == nil {
 		ev["assumptions"] = []string{}
 	}
-	if !r.Verbose {
+	if !r.Verbose && os.Getenv("VERIF_NOEVIDENCE") != "1" {
 		b, _ := json.MarshalIndent(ev, "", " ")
 		os.MkdirAll(filepath.Join(VerifDir, "evidence"), 0o755)
 		tmp := filepath.Join(VerifDir, "evidence", r.ID+".json.tmp")
